@@ -447,7 +447,12 @@ def attribute(case, v):
     if v.kind == "process-raised" and sig.startswith(("RelationalAlgebraError@_engine.py:_append_binary_to_select", "RelationalAlgebraError@_engine.py:materialize")):
         from vf.core.known import trig_sorted_chain_with_empty_operand
 
-        if trig_sorted_chain_with_empty_operand(prog, case[0][1]):
+        leaf_sets = [case[0][1]]
+        if len(case) > 2 and case[2] == 2:
+            from vf.core.prog import twin_leaves
+
+            leaf_sets.append(twin_leaves(case[0][1]))  # the second operand is built over the twin leaves (other bounds)
+        if any(trig_sorted_chain_with_empty_operand(prog, ls) for ls in leaf_sets):
             return "D25"
     if v.kind in ("process-raised", "processed-tree-not-executable") and TRIGGERS["D10"](prog):
         if sig.startswith("ColumnError@_sort.py") or sig.startswith("KeyError@_engine.py:convert_column_expression"):
